@@ -7,6 +7,24 @@ ids = [json.loads(l)["id"] for l in open(os.path.join(ROOT, "properties.jsonl"))
 
 TECH = "deterministic whole-program simulation (std-facade substitution under a seeded scheduler) with fault injection; "
 CLAIMED = {
+    "C04": dict(
+        level="exploration", ref="DESIGN.md 5/C04",
+        text="2-3 real nodes form a cluster through the real join/election protocol over the simulated TCP (FIFO links, latency/jitter); 1-8 operations are issued by sessions at arbitrary nodes (sequentially with quiescence in between, back to back, or from two concurrent clients on the primary); at quiescence the white-box dump of every node (databases, strategy, per-key value / removed-or-live / version) must equal the primary's. Seeded search over programs x delivery interleavings.",
+        note="clusters that do not form with the oldest node as primary are discarded (C07's subject); $connections, oplog contents and ids are not compared; writes issued on secondaries and two racing clients on the primary are recorded known findings",
+        technique=TECH + "multi-node convergence oracle over white-box dumps at quiescence",
+    ),
+    "C07": dict(
+        level="exploration", ref="DESIGN.md 5/C07",
+        text="2-3 real nodes (real start_db, join, election, set-primary traffic, one thread per connection) are booted 1 ms - 2.5 s apart over the simulated TCP with latency kept below timeout/4 and timers firing only when no task can run; after start-up and after each of 0-3 triggers (forced election on any node, two at once, primary/secondary kill, restart) the cluster must become quiet within 6 x (timeout + 1.1 s) with exactly one primary = the oldest live node and all member tables agreeing (bounded liveness). Seeded search over triggers x delivery interleavings x election timeout.",
+        note="judged only at quiescence; 'oldest' = smallest process id; node clocks not skewed; several election defect families are recorded known findings (known_findings.json), the remaining trigger/boot classes must be clean",
+        technique=TECH + "bounded-liveness and agreement oracle at quiescence",
+    ),
+    "C14": dict(
+        level="exploration", ref="DESIGN.md 5/C14",
+        text="On a stable cluster of 2-3 real nodes every client-visible command (incl. an arbiter conflict and its resolve) is issued one at a time on a seeded node; every line crossing an inter-node link is recorded and attributed (forwards, copies per replicated message, acks, secondary-to-secondary traffic), and the cluster must fall silent within a budget far above the bound and stay silent for 2 x the election timeout.",
+        note="membership/election traffic is not generated here; the arbiter client is a harness stub answering each notice once",
+        technique=TECH + "per-operation accounting of every line on the simulated links plus a quiescence check",
+    ),
     "C03": dict(
         level="exploration", ref="DESIGN.md 5/C03",
         text="Seeded search over lock-level interleavings of 1-2 writer and 1-2 subscriber sessions (watch/unwatch/unwatch-all/disconnect) on a node booted by start_db, direct and over the real TCP handler; the recorded history (global sequence stamps, unique values) is checked: every accepted write entirely inside a subscription is notified exactly once, refused and outside writes never, and the highest-versioned notification equals the final value.",
